@@ -16,7 +16,7 @@ EXPORTS = ("MC_AgonesExport.cfg", "MC_AgonesExportFaults.cfg")
 
 TIERS = {
     # exhaustive cfg, workers, simulate num (per worker), histories replayed, harness threads
-    "quick": dict(mc=["MC_AgonesQuick.cfg"], workers=4, sim="num=250", depth=100, histories=48, threads=48),
+    "quick": dict(mc=["MC_AgonesQuick.cfg"], workers=4, sim="num=250", depth=100, histories=64, threads=48),
     "thorough": dict(mc=["MC_AgonesFull.cfg", "MC_AgonesFull2.cfg"], workers=6, sim="num=1500", depth=100, histories=600, threads=40),
 }
 
@@ -92,6 +92,7 @@ def features(steps):
     seen = {}     # what the client was last told
     pending = True
     disconnected = False
+    listed_before = set()
     for s in steps:
         k = s["k"]
         if k == "churn":
@@ -125,6 +126,10 @@ def features(steps):
                 if offerable(a):
                     feats.add(("C", "relist", "offered-as", a["state"], len(a["ports"]) > 1))
                 feats.add(("relist", shape_class(b), shape_class(a)))
+            # an object that an EARLIER list contained and this one does not (deleted while the client was away; no DELETED event for it)
+            for nm in listed_before - set(cur):
+                feats.add(("C", "relist-without-previously-listed", coarse(seen.get(nm)), min(len(cur), 1)))
+            listed_before |= set(cur)
             feats.add(("C", "list-size", min(len(cur), 3)))
             if seen or not pending or steps.index(s) > 0:
                 # a RE-list: how much it returns, and whether something was being offered before it (an empty re-list must empty the offer)
